@@ -17,7 +17,7 @@ theorem l1reg_prox_real_array {lamda : ι → ℝ} {α : ℝ} (hl : ∀ i, 0 ≤
       (vec fun i => softThresh (l1regLam (lamda i) α) (y i) |y i|) := by
   have := isProxOn_pi (β := fun _ : ι => ℝ) (C := fun _ => Set.univ)
     (F := fun i x => l1regLam (lamda i) α * |x|) y (vec fun i => softThresh (l1regLam (lamda i) α) (y i) |y i|)
-    (fun i => soft_thresh_prox_real (by unfold l1regLam; exact mul_nonneg (hl i) hα.le) (y i))
+    (fun i => soft_thresh_prox_real (by unfold l1regLam; have := hl i; positivity) (y i))
   refine this.congr (by ext; simp) (fun x => ?_)
   unfold l1regLam
   rw [Finset.mul_sum]
@@ -29,7 +29,7 @@ theorem l1reg_prox_complex_array {lamda : ι → ℝ} {α : ℝ} (hl : ∀ i, 0 
       (vec fun i => csoft (l1regLam (lamda i) α) (y i)) := by
   have := isProxOn_pi (β := fun _ : ι => ℂ) (C := fun _ => Set.univ)
     (F := fun i x => l1regLam (lamda i) α * ‖x‖) y (vec fun i => csoft (l1regLam (lamda i) α) (y i))
-    (fun i => soft_thresh_prox_complex (by unfold l1regLam; exact mul_nonneg (hl i) hα.le) (y i))
+    (fun i => soft_thresh_prox_complex (by unfold l1regLam; have := hl i; positivity) (y i))
   refine this.congr (by ext; simp) (fun x => ?_)
   unfold l1regLam
   rw [Finset.mul_sum]
